@@ -22,8 +22,8 @@ class C11(BindSpec):
 
     def streams(self, tier, seed):
         if tier == "quick":
-            return [Stream("valid", "bind.valid", 1500, envs=ENVS, timeout=0.05),
-                    Stream("malformed", "bind.malformed", 700, envs=ENVS, timeout=0.05),
+            return [Stream("valid", "bind.valid", 1200, envs=ENVS, timeout=0.05),
+                    Stream("malformed", "bind.malformed", 500, envs=ENVS, timeout=0.05),
                     Stream("anydest", "bind.any", 400, envs=ENVS, timeout=0.05),
                     Stream("utf8bulk", "bind.utf8bulk", 18, envs=ENVS, timeout=0.5),
                     Stream("b64esc", "bind.b64esc", 400, envs=ENVS, timeout=0.05)]
@@ -63,6 +63,7 @@ class C11(BindSpec):
             valid = False
         if not valid or string_spans_bad(doc):
             return out
+        pair_found = []
         for i in range(len(envs)):
             for j in range(i + 1, len(envs)):
                 a, b = sonic[envs[i]], sonic[envs[j]]
@@ -71,6 +72,37 @@ class C11(BindSpec):
                     out.append(("error-or-not-differs:%s/%s" % (envs[i], envs[j]), "cfg=%d %s=%s %s=%s val=%s" % (cfg, envs[i], a["sonic"], envs[j], b["sonic"], (a if aok else b).get("val", "")[:300])))
                 elif aok and a.get("val") != b.get("val"):
                     out.append(("value-differs:%s/%s" % (envs[i], envs[j]), "cfg=%d %s=%s %s=%s" % (cfg, envs[i], a.get("val", "")[:300], envs[j], b.get("val", "")[:300])))
+        # each implementation against ITS model: jitdec against Bind/Stream (C01 does that with a verdict), the
+        # optdec workers against the two-phase model with the recorded quirks on (`omodel`).  A difference that no
+        # listed finding explains breaks the tie that lets `optdec_eq_bind` speak about the running code.
+        if m["model"] in ("unsupported",) or m.get("omodel") in (None, "unsupported") or (m.get("tripledup") == "1"):
+            return out
+        jit = sonic.get("jit") or {}
+        if jit.get("sonic") is None or (jit["sonic"] == "ok") != (m["model"] == "ok") or (m["model"] == "ok" and jit.get("val") != m.get("val")):
+            return out      # the case is not one the models describe (C01 reports it)
+        for e in envs:
+            if e == "jit":
+                continue
+            s = sonic[e]
+            mk, vk = ("fmodel", "fval") if e == "optdec_fastmap" and "fmodel" in m else ("omodel", "oval")
+            if m.get(mk) in (None, "unsupported"):
+                continue
+            o_ok, s_ok = m[mk] == "ok", s["sonic"] == "ok"
+            kind = None
+            if o_ok != s_ok:
+                kind = "error-or-not-differs:%s~model" % e
+            elif s_ok and s.get("val") != m.get(vk):
+                kind = "value-differs:%s~model" % e
+            if kind is None:
+                continue
+            detail = "%s cfg=%d sonic=%s val=%s %s=%s %s=%s" % (e, cfg, s["sonic"], s.get("val", "")[:250], mk, m[mk], vk, m.get(vk, "")[:250])
+            # explained by a listed finding (seen either as this difference or as the jit/<env> difference)?
+            cands = [{"kind": kind, "detail": detail, "case": case, "sonic": sonic, "model": model}]
+            for k2 in ("error-or-not-differs:jit/%s" % e, "value-differs:jit/%s" % e):
+                cands.append({"kind": k2, "detail": detail, "case": case, "sonic": sonic, "model": model})
+            if any(f(d, {}) for d in cands for f in MATCHERS.values()):
+                continue
+            out.append(("tie:optdec-two-phase-model:" + kind, detail))
         return out
 
     def model_ref_disagree(self, case, sonic, model):
